@@ -11,6 +11,9 @@ namespace ML
 /-- Field operations and a decidable order; no laws (laws come from the instance at `ℝ`). -/
 class Scalar (K : Type) extends Add K, Sub K, Mul K, Div K, Neg K, Zero K, One K, LT K, LE K where
   ofNat : Nat → K
+  /-- a number strictly below `x` (binary64: the next representable number towards −∞, `np.nextafter(x, -inf)`;
+  exact fields: `x − 1`) -/
+  below : K → K
   decLt : DecidableRel (α := K) (· < ·)
   decLe : DecidableRel (α := K) (· ≤ ·)
 
@@ -22,10 +25,17 @@ class ScalarT (K : Type) extends Scalar K where
   exp : K → K
   log : K → K
 
+/-- `np.nextafter(x, -inf)` for finite binary64 numbers -/
+def floatBelow (x : Float) : Float :=
+  if x > 0.0 then Float.ofBits (x.toBits - 1)
+  else if x < 0.0 then Float.ofBits (x.toBits + 1)
+  else Float.ofBits 0x8000000000000001
+
 instance : Scalar Float where
   zero := 0.0
   one := 1.0
   ofNat := Float.ofNat
+  below := floatBelow
   decLt := fun a b => Float.decLt a b
   decLe := fun a b => Float.decLe a b
 
@@ -36,6 +46,7 @@ instance : ScalarT Float where
 
 instance : Scalar Rat where
   ofNat := fun n => (n : Rat)
+  below := fun x => x - 1
   decLt := inferInstance
   decLe := inferInstance
 
